@@ -21,6 +21,7 @@ import (
 	"strconv"
 	"strings"
 	"sync"
+	"sync/atomic"
 	"testing"
 	"time"
 
@@ -247,7 +248,11 @@ func init() {
 		}
 		var mu sync.Mutex
 		seen := map[uint32][]string{}
+		var active, started atomic.Int64
 		st, _ := newVerifTester(t, func(w http.ResponseWriter, r *http.Request) {
+			active.Add(1)
+			started.Add(1)
+			defer active.Add(-1)
 			d, ok := metadata.FromContext(r.Context())
 			if !ok {
 				return
@@ -270,8 +275,20 @@ func init() {
 			mu.Unlock()
 		})
 		st.writePreface()
+		// the test connection otherwise waits for the whole group (handlers included) to go idle after every write
+		st.cc.(*synctestNetConn).autoWait = false
 		for _, tk := range toks {
 			writeVerifFrame(st, tk)
+		}
+		// let the handlers run against the serve loop undisturbed (the group's idle detection stops the world on
+		// every poll); only then wait for quiescence
+		for quiet, last := 0, int64(-1); quiet < 3; {
+			time.Sleep(2 * time.Millisecond)
+			if n := started.Load(); active.Load() == 0 && n == last {
+				quiet++
+			} else {
+				quiet, last = 0, n
+			}
 		}
 		st.sync()
 		mu.Lock()
